@@ -16,6 +16,7 @@ import hashlib
 import importlib
 import json
 import multiprocessing
+import multiprocessing.pool
 import os
 import sys
 import time
@@ -65,25 +66,42 @@ def _run_job(args):
         return {"infra_error": "%s: %r\n%s" % (job.get("kind"), e, traceback.format_exc())}
 
 
+_ABANDONED = []      # pools that were ended by SIGKILL: keep them referenced, their finalizer (terminate) could hang
+
+
+def _dbg(msg):
+    if os.environ.get("VERIF_DEBUG"):
+        sys.stderr.write("[check %s] %s\n" % (time.strftime("%H:%M:%S"), msg))
+        sys.stderr.flush()
+
+
 def run_jobs(modname, jobs, timeout):
     if not jobs:
         return []
+    _dbg("run_jobs %s: %d jobs (%s)" % (modname, len(jobs), ",".join(sorted(set(j.get("kind", "?") for j in jobs)))))
     ctx = multiprocessing.get_context("fork")
-    pool = ctx.Pool(min(NPROC, len(jobs)), initializer=_worker_init, maxtasksperchild=8)
+    # no maxtasksperchild: a retiring worker runs Python's normal shutdown, which can wait for ever on threads that the
+    # scheduler harness left parked; workers are only ever ended by SIGKILL below
+    pool = ctx.Pool(min(NPROC, len(jobs)), initializer=_worker_init)
     try:
         r = pool.map_async(_run_job, [(modname, j) for j in jobs], chunksize=1)
         out = r.get(timeout)
-        pool.close()
+        _dbg("run_jobs done")
         return out
     except multiprocessing.TimeoutError:
         return None
     finally:
+        # mo_threads installs SIGTERM/SIGINT handlers in the workers, so Pool.terminate() (SIGTERM, then join) can hang; and
+        # terminate() after a SIGKILL can hang too (a killed worker may hold the task queue's read lock).  So: tell the pool's
+        # maintenance thread to stop re-populating, SIGKILL the workers, and abandon the pool (its helper threads are
+        # daemons; the check leaves through os._exit).
+        _ABANDONED.append(pool)
         try:
-            pool.terminate()
+            pool._worker_handler._state = multiprocessing.pool.TERMINATE
+            pool._state = multiprocessing.pool.TERMINATE
         except Exception:
             pass
-        # mo_threads installs SIGTERM handlers in the workers: make sure they are gone
-        for p in getattr(pool, "_pool", []) or []:
+        for p in list(getattr(pool, "_pool", []) or []):
             try:
                 os.kill(p.pid, 9)
             except Exception:
@@ -175,8 +193,10 @@ def main(argv=None):
     if not thms:
         proof_broken.append("no property theorem found for %s" % prop)
     lc_ok = None
+    _dbg("audit done")
     if tier == "thorough" and not proof_broken:
         lc_ok, lc_out = lean_audit.leanchecker()
+        _dbg("leanchecker done: %s" % lc_ok)
         if not lc_ok:
             proof_broken.append("leanchecker rejected the compiled modules: %s" % lc_out[-300:])
 
